@@ -61,7 +61,10 @@ def gen_cases(rng, tier):
         w, h = rng.choice([(8, 8), (12, 6), (5, 9)])
         sw, sh = rng.choice([(1, 1), (4, 4), (8, 3)])
         op = rng.choice([1.0, 0.5, 0.2, 0.75, 0.05, 0.0, 0.0, round(rng.random(), 3)])   # 0: a transparent source still clears under Source
-        cases.append(("pat_px", [2, sw, sh, rng.getrandbits(40), 1, 0, 0] + list(_c16_IDENT) + [rng.randrange(3), rng.randrange(3), f2b(op), rng.randrange(2), rng.randrange(3), w, h]))
+        cases.append(("pat_px", [2, sw, sh, rng.getrandbits(40), 1, 0, 0] + list(_c16_IDENT) + [rng.randrange(3), rng.randrange(3), f2b(op), rng.randrange(2) + 2 * rng.choice([0, 0, 1, 2]), rng.randrange(3), w, h]))
+    # the full pattern reference of C16 (taps, weights, clamps, opacity, blend) on draws with an opacity strictly between 0 and 1:
+    # the opacity must scale the CLAMPED sample (bicubic overshoot next to hard edges)
+    cases += [c for c in _c16.gen_cases(rng, tier) if c[0] == "pat_px" and c[1][0] in (0, 1) and c[1][15] not in (f2b(1.0), f2b(0.0))][:200 if tier == "quick" else 3000]
     # shader opacity: gradients drawn after Shader::apply_opacity sequences (none | 1.0 | 0.5, 1.0 | 0.5), judged by the
     # C15 reference with the stop alphas scaled by the product
     cases += [c for c in _c15.gen_cases(rng, tier) if c[0] == "grad_px" and c[1][8] >= 2][:400 if tier == "quick" else 5000]
